@@ -5,8 +5,12 @@ extracted from omega/symbolic/codegen.py with `ast` into coq/gen/C13_tables.v.
 Tie H: (a) codegen.dumps_bdd_as_code on random multi-root BDDs over <= 6 bits
 on both dd back ends: the generated Python is exec-uted on all inputs and
 compared inside Coq with the model's emitted program (Dag.v) and with the
-BDD's truth table; the C-syntax output is checked structurally against the
-Python output; (b) codegen.dumps_bdds_as_code end to end on relations over
+BDD's truth table; the C-syntax output is evaluated by an independent strict
+evaluator; and the TEXT of both outputs (lang='python' and lang='c'), cut
+into tokens inside Coq (Render.lex), must equal token for token the model's
+rendering (Render.render) of the program emitted for the extracted DAG under
+the extracted syntax table, for which C13_rendered_text_evaluates_* is
+proved; (b) codegen.dumps_bdds_as_code end to end on relations over
 1-3 small variables: the generated step() is run on all states in the bit
 ranges and compared inside Coq with the model (Step.v) and, independently,
 with the relation as an explicit set; (c) int_to_bits / decoding functions
@@ -25,13 +29,17 @@ LEVEL = 'proof'
 THEORIES = ['theories/L7Codegen/StepCheck.vo',
             'theories/L7Codegen/BitsProofs.vo',
             'theories/L7Codegen/DagProofs.vo',
-            'theories/L7Codegen/StepProofs.vo']
+            'theories/L7Codegen/StepProofs.vo',
+            'theories/L7Codegen/Render.vo',
+            'theories/L7Codegen/RenderProofs.vo']
 
-HEADER = '''From Coq Require Import List Bool Arith ZArith NArith.
+HEADER = '''From Coq Require Import String.
+From Coq Require Import List Bool Arith ZArith NArith.
 Import ListNotations.
 From Omega Require Import L7Codegen.Pred L7Codegen.Synth L7Codegen.SynthCheck
   L7Codegen.Bits L7Codegen.Dag L7Codegen.EmitCheck L7Codegen.Step
-  L7Codegen.StepCheck.
+  L7Codegen.StepCheck L7Codegen.Render.
+From OmegaGen Require Import C13_tables.
 Local Open Scope Z_scope.
 '''
 
@@ -132,7 +140,8 @@ def prove(ctx):
         langs, used = extract_tables()
         ctx.write_gen('gen/C13_tables.v', tables_v(langs, used))
         ctx.prove('Properties/C13.v')
-    _count_theory_lemmas(ctx, ['BitsProofs', 'DagProofs', 'StepProofs'])
+    _count_theory_lemmas(ctx, ['BitsProofs', 'DagProofs', 'StepProofs',
+                               'RenderProofs'])
     ctx.extra['languages_table'] = langs
     ctx.extra['syntax_keys_used'] = used
     ctx.trusted.append(
@@ -141,8 +150,12 @@ def prove(ctx):
         'that this evaluation equals the BDD (bdd.let on every input) is '
         're-checked on every sampled DAG, not proved')
     ctx.trusted.append(
-        'Python execution of the generated text (exec); the C-syntax target '
-        'is only checked to be the token-wise image of the Python target')
+        'Python execution of the generated text (exec). The text of both '
+        'targets is tied to the proved rendering model by exact equality of '
+        'token lists, the real text being cut into tokens inside Coq by the '
+        'generic lexer Render.lex (blanks separate; line break, each '
+        'parenthesis, maximal runs of word / of other characters are '
+        'tokens); that lexer is part of the tie, not of the theorem')
     ctx.trusted.append(
         'aut.to_bdd (C06) for formula relations: the relation is taken at the '
         'bit level as the truth table of the BDD it returns')
@@ -214,9 +227,15 @@ def run_emit(case):
     dag = ce.extract_dag(bdd, list(roots.values()))
     rl = '[' + '; '.join(f'({j}%nat, {zlit(int(u))})'
                          for j, u in enumerate(roots.values())) + ']'
-    term = (f'check_emit {n}%nat {n}%nat {ce.dag_lit(dag)} {rl} '
+    # the text of both targets against the rendering model (Render.v)
+    term = (f'(let d := {ce.dag_lit(dag)} in let rl := {rl} in '
+            f'check_emit {n}%nat {n}%nat d rl '
             f'[{"; ".join(str(impl[k]) + "%N" for k in roots)}] '
-            f'[{"; ".join(str(t) + "%N" for t in truth)}]')
+            f'[{"; ".join(str(t) + "%N" for t in truth)}] ++ '
+            f'[check_text languages "python"%string {n}%nat {n}%nat d rl '
+            f'{coq_str(code)}%string; '
+            f'check_text languages "c"%string {n}%nat {n}%nat d rl '
+            f'{coq_str(c_code)}%string])')
     info['nodes'] = len(dag)
     info['complemented'] = sum(1 for d in dag.values() if d['neg'])
     info['code_sample'] = code[:400]
@@ -405,7 +424,11 @@ def correspond(ctx):
     bad = [k for k, v in enumerate(ok) if not v]
     aspects = {
         'emit': ['DAG well-formed', 'model program = generated program '
-                 '(all inputs)', 'DAG meaning = BDD', 'latch assigned once'],
+                 '(all inputs)', 'DAG meaning = BDD', 'latch assigned once',
+                 'tokens of the Python text = rendering of the model program '
+                 'under languages[python]',
+                 'tokens of the C text = rendering of the model program '
+                 'under languages[c]'],
         'step': ['extraction order', 'functions', 'step(state) on all states',
                  'step through the emitted program'],
         'bits': ['int_to_bits', 'dom_to_width',
@@ -434,7 +457,11 @@ def correspond(ctx):
         'in random order, alternating dd.autoref / dd.cudd; generated Python '
         'exec-uted on ALL inputs; compared in Coq with the program emitted by '
         'the model from the DAG read off the manager and with the BDD truth '
-        'table; C output must be the token-wise image of the Python output. '
+        'table; the C output is evaluated on all inputs by an independent '
+        'strict evaluator; the token lists of the Python and of the C text '
+        '(cut inside Coq) must equal the rendering of the model program under '
+        'the extracted syntax table (Render.v, for which '
+        'C13_rendered_text_evaluates_bdd is proved). '
         '(b) dumps_bdds_as_code: 1-3 variables of 17 kinds (Boolean, '
         'unsigned, signed, all-negative, constants), 1..all primed outputs, '
         'universe <= 11 bits; relations: conjunctions of assignments '
